@@ -448,6 +448,52 @@ def _rand_type(rng, depth, key):
     raise ValueError(c)
 
 
+def has_schema(t):
+    """Mirror of the Coq `has_schema` (coq/SchemaOf.v): a BorshSchema impl exists."""
+    k = t[0]
+    if k in ('prim', 'unit'):
+        return True
+    if k == 'raw':
+        return t[1] in ('ipv4', 'ipv6')
+    if k == 'text':
+        return t[1] in ('string', 'str', 'asciistring', 'asciistr')
+    if k == 'seq':
+        kind, e = t[1], t[2]
+        if kind in ('indexset', 'indexmap'):
+            return False
+        if kind in MAP_KINDS and not (e[0] == 'prod' and e[1] == 'tuple' and len(e[2]) == 2):
+            return False
+        return has_schema(e)
+    if k == 'array':
+        return has_schema(t[2])
+    if k == 'prod':
+        kind = t[1]
+        if kind == 'tuple':
+            return 1 <= len(t[2]) <= 21 and all(has_schema(x) for x in t[2])
+        if kind in ('sockv4', 'sockv6'):
+            return False
+        if kind[0] == 'range':
+            return all(has_schema(x) for x in t[2])
+        if kind[0] == 'struct':
+            return (not kind[2] or len(kind[2]) == len(t[2])) and len(kind[3]) == len(t[2]) and all(has_schema(x) for x, s in zip(t[2], kind[3]) if not s)
+        return False
+    if k == 'sum':
+        kind = t[1]
+        if kind == 'option':
+            return len(t[2]) == 2 and t[2][0] == NONE_PAYLOAD and has_schema(t[2][1])
+        if kind == 'result':
+            return len(t[2]) == 2 and all(has_schema(x) for x in t[2])
+        if kind == 'ipaddr':
+            return tuple(t[2]) == (IPV4, IPV6)
+        if kind == 'sockaddr':
+            return False
+        return all(x[0] == 'prod' and isinstance(x[1], tuple) and x[1][0] == 'variant' and len(x[1][2]) == len(x[2]) and (not x[1][1] or len(x[1][1]) == len(x[2])) and
+                   all(has_schema(y) for y, sk in zip(x[2], x[1][2]) if not sk) for x in t[2])
+    if k == 'wrap':
+        return t[1] != 'ref' and has_schema(t[2])
+    return False
+
+
 def wire_min(t):
     """Least number of bytes an encoding of t can have."""
     k = t[0]
